@@ -381,6 +381,15 @@ impl Oracle {
                 if limit_hit && subs < self.max_subs {
                   fails.push(format!("C14: {m} refused with the subscription limit on {h} while subscribed to only {subs} of {} channels", self.max_subs));
                 }
+                // (the member sets are known exactly only while no clean-up has lost its announcements)
+                let overloaded = frames.iter().any(|f| matches!(&f.msg, Message::Error(p) if p.reason.as_ref() == "SERVER_OVERLOADED" && p.id == Some(*id)));
+                if overloaded && creating && self.members.len() < self.max_channels && self.members.values().all(|s| !s.is_empty()) {
+                  fails.push(format!(
+                    "C14: creating {h} was refused with the channel limit while only {} of {} channels exist: slots of channels that are gone were not released",
+                    self.members.len(),
+                    self.max_channels
+                  ));
+                }
                 let full = frames.iter().any(|f| matches!(&f.msg, Message::Error(p) if p.reason.as_ref() == "CHANNEL_IS_FULL" && p.id == Some(*id)));
                 if full && size < self.max_clients.min(size + 1) && false {
                   fails.push(format!("C14: {h} reported full with {size} members"));
